@@ -269,6 +269,17 @@ class Exec:
                 node = None
             if isinstance(node, ast.FunctionDef):
                 return Closure(node, Env(), e.id, cls=None, module=mod)
+            # a module-level compiled pattern (NAME = re.compile(<literal>)): the real pattern object behind a model (pyvc/pyregex.py)
+            try:
+                from . import pyregex as _pyregex
+                rx = _pyregex.from_module_source(_extract.load(mod).tree, e.id)
+            except Unsupported:
+                raise
+            except Exception:
+                rx = None
+            if rx is not None:
+                self.models.setdefault('pyregex', _pyregex.PyRegexModel)
+                return rx
         hook = getattr(self, 'unresolved_hook', None)
         if hook is not None:
             r = hook(e.id)
